@@ -1,12 +1,11 @@
 import Ldlm.Proofs.Lease
-import Ldlm.Props.Pins
 /-!
 C05 — Unlock, Renew and lease expiry racing on one hold answer truthfully.
 
 Model M3a (`Ldlm.Lease`): the life of one leased hold with any number of concurrent Unlock and Renew
 threads and the lease callback, one step per call into a manager, EVERY schedule (`List Act`).
 The model follows the repaired code: `TimerMap.Reset` is one critical section (pinned to its source
-text: `Pins.pin_TimerReset`).
+text: `Pins.C05.pin_TimerReset`).
 
 * `unlock_truthful`   — in every reachable state: if some Unlock has answered unlocked=true, the hold
                         is out of the lock table, or the lease callback is standing right before its
